@@ -1,9 +1,10 @@
 import os, shutil, subprocess, sys, re
-BASE="/root/work/C13/repo"
+BASE="/root/work/C13/repo"   # the copy with fix-F2..F4 applied; run with VERIF_C13_FIXED=1 (default)
+REVERTS = {"R2_revert_fix_F2": "/root/work/C13/fix-F2.diff", "R3_revert_fix_F3": "/root/work/C13/fix-F3.diff", "R4_revert_fix_F4": "/root/work/C13/fix-F4.diff"}
 MUTS = {
  "M1_ns_ignores_slash": ("hed/models/hed_tag.py", "            if first_slash != -1 and first_colon > first_slash:\n                return \"\"\n", "            if first_slash != -1 and first_colon > first_slash + 1:\n                return \"\"\n"),
  "M3_twa_without_namespace": ("hed/schema/hed_schema.py", "                                                                    schema_namespace=self._namespace)", "                                                                    schema_namespace=\"\")"),
- "M4_prefix_isalnum": ("hed/schema/hed_schema.py", "if schema_namespace and not schema_namespace[:-1].isalpha():", "if schema_namespace and not schema_namespace[:-1].isalnum():"),
+ "M4_prefix_isalnum": ("hed/schema/hed_schema.py", "if schema_namespace and not (schema_namespace[:-1].isalpha() and schema_namespace.isascii()):", "if schema_namespace and not (schema_namespace[:-1].isalnum() and schema_namespace.isascii()):"),
  "M6_merge_keeps_standard_dups": ("hed/schema/schema_io/base2schema.py", "if not entry.has_attribute(HedKey.InLibrary) and self.appending_to_schema and self._schema.merged:", "if not entry.has_attribute(HedKey.InLibrary) and self.appending_to_schema and not self._schema.merged:"),
  "M10_inlibrary_on_standard": ("hed/schema/schema_io/base2schema.py", "                not self._schema.with_standard or (not self._schema.merged and self._schema.with_standard)):", "                not self._schema.with_standard or (self._schema.merged and self._schema.with_standard)):"),
  "M14_group_lookup_casefold": ("hed/schema/hed_schema_group.py", "        schema = self._schemas.get(namespace)\n", "        schema = self._schemas.get(namespace.lower())\n"),
@@ -11,16 +12,23 @@ MUTS = {
  "M15_same_version_other_prefix_check": ("hed/schema/hed_schema_io.py", "        if version in out_versions[schema_namespace]:", "        if version in out_versions[schema_namespace] and not schema_namespace:"),
  "M16_find_rem_offbyone": ("hed/schema/hed_schema_group.py", "        return specific_schema._find_tag_entry(tag, schema_namespace)", "        return specific_schema._find_tag_entry(tag, schema_namespace[:-1]) if len(schema_namespace) > 3 else specific_schema._find_tag_entry(tag, schema_namespace)"),
 }
-which = sys.argv[1:] or list(MUTS)
+PATCHES = {"S2_seeded_find_tag_entry_guard": "/root/work/seedout/C13/2/patch.diff"}
+which = sys.argv[1:] or (list(PATCHES) + list(REVERTS) + list(MUTS))
 for name in which:
-    f, old, new = MUTS[name]
     d = f"/root/work/C13/mut/{name}"
     shutil.rmtree(d, ignore_errors=True)
     shutil.copytree(BASE, d)
-    p = os.path.join(d, f)
-    s = open(p).read()
-    assert s.count(old) == 1, (name, s.count(old))
-    open(p, "w").write(s.replace(old, new))
+    if name in PATCHES:
+        subprocess.run(["git", "apply", PATCHES[name]], cwd=d, check=True)
+    elif name in REVERTS:
+        subprocess.run(["git", "apply", "-R", REVERTS[name]], cwd=d, check=True)
+    else:
+        f, old, new = MUTS[name]
+        p = os.path.join(d, f)
+        s = open(p, newline="").read()
+        old, new = (old.replace("\n", "\r\n"), new.replace("\n", "\r\n")) if "\r\n" in s else (old, new)
+        assert s.count(old) == 1, (name, s.count(old))
+        open(p, "w", newline="").write(s.replace(old, new))
     r = subprocess.run(["./check", "C13", "--tier", "quick"], cwd="/root/work/C13/verif", env=dict(os.environ, VERIF_REPO=d, VERIF_SEED="0"), capture_output=True, text=True)
     lines = [l for l in r.stdout.split("\n") if l.startswith("VIOLATION") or l.startswith("  clause") or l.startswith("C13 ")]
     print("=====", name, "exit", r.returncode)
